@@ -69,6 +69,10 @@ func checkC09(p *Program, r *Result) {
 		checkFullReadBeforeReturn(p, r, fn, 1, 2)
 	}
 
+	r.rule("C09.r", "the source is consumed only through full-read primitives (a hand-written Read loop mishandles the (0, EOF) a truncated file produces)", 15)
+	for _, fn := range sortedFuncs(readerScope(p)) {
+		checkRawReadsAs(p, r, fn, "C09.r")
+	}
 	r.rule("C09.f", "the destination of a full read is consumed only where the read succeeded", 10)
 	checkConsumeAfterFullRead(p, r, "C09.f", sortedFuncs(readerScope(p)))
 
